@@ -1,18 +1,25 @@
 ------------------------------ MODULE CardModel ------------------------------
-(* Reference model of one metric pipeline (C12): instruments, views (match,   *)
-(* rename, re-aggregate, attribute filter, drop), the stream identity cache,  *)
-(* the cardinality limit with its overflow attribute set, delta / cumulative  *)
-(* collection.  Transcribed from the property statement and the OTel metrics  *)
-(* SDK specification (sections View, Cardinality limits, Aggregations), not   *)
-(* from the Go code.  Pure operators only; Cardinality.tla is the state       *)
-(* machine TLC explores, CardinalityH.tla adds the declarative statement,     *)
-(* Trace_Cardinality.tla validates real executions.                           *)
+(* Reference model of one metric pipeline (C12): instruments, views (instrument *)
+(* selection criteria, rename, re-aggregate, attribute filter, drop), stream   *)
+(* identity and the aggregator cache, the cardinality limit with its overflow  *)
+(* attribute set, delta / cumulative collection.  Transcribed from the         *)
+(* property statement, the doc comments of sdkmetric.Instrument / Stream /     *)
+(* NewView and the OTel metrics SDK specification (sections View, Duplicate    *)
+(* instrument registration, Cardinality limits, Aggregations), not from the Go *)
+(* code.  Pure operators only; Cardinality.tla is the state machine TLC        *)
+(* explores, CardinalityH.tla adds the declarative statement,                  *)
+(* Trace_Cardinality.tla validates real executions.                            *)
 (*                                                                            *)
 (* attribute set : function Keys -> Nat, 0 = key absent                       *)
-(* cfg  : [limit, temp, insts : Seq [name,kind,num], views : Seq View]        *)
-(* View : [mname ("" | "*" | instrument name), mkind ("" | kind),             *)
-(*         name ("" = keep), agg ("" | default | drop | sum | last | hist |   *)
-(*         expo), filt [on, keep : Seq key]]                                  *)
+(* cfg  : [limit, temp, insts : Seq Inst, views : Seq View]                    *)
+(* Inst : [name, kind, num, unit, desc, sn, sv, su]   (sn/sv/su = name,        *)
+(*         version and schema URL of the instrumentation scope = the Meter)    *)
+(* View : selection criteria, "" = not given:                                  *)
+(*           mname (exact name or pattern with * and ?), mkind, munit, mdesc,  *)
+(*           msn, msv, msu                                                     *)
+(*        stream mask, "" = keep the instrument's: name, unit, desc;           *)
+(*           agg ("" | default | drop | sum | last | hist | expo),             *)
+(*           filt [on, keep : Seq key]                                         *)
 EXTENDS Integers, Sequences, FiniteSets, SequencesExt
 
 CONSTANT Keys
@@ -51,35 +58,97 @@ HasSum(kind) == kind \in {"counter", "histogram", "ocounter"}
 Mono(kind) == kind \in {"counter", "histogram", "ocounter"}
 
 -----------------------------------------------------------------------------
+(* strings are sequences of characters: names are matched and compared        *)
+(* character by character                                                      *)
+Ch(s, j) == SubSeq(s, j, j)
+Rest(s) == SubSeq(s, 2, Len(s))
+U2L == [A |-> "a", B |-> "b", C |-> "c", D |-> "d", E |-> "e", F |-> "f", G |-> "g", H |-> "h", I |-> "i",
+        J |-> "j", K |-> "k", L |-> "l", M |-> "m", N |-> "n", O |-> "o", P |-> "p", Q |-> "q", R |-> "r",
+        S |-> "s", T |-> "t", U |-> "u", V |-> "v", W |-> "w", X |-> "x", Y |-> "y", Z |-> "z"]
+RECURSIVE Lower(_)
+Lower(s) == IF Len(s) = 0 THEN ""
+            ELSE (IF Ch(s, 1) \in DOMAIN U2L THEN U2L[Ch(s, 1)] ELSE Ch(s, 1)) \o Lower(Rest(s))
+(* NewView: "The Name field of criteria supports wildcard pattern matching.    *)
+(* The * wildcard is recognized as matching zero or more characters, and ? is  *)
+(* recognized as matching exactly one character."  Without a wildcard this is  *)
+(* equality.                                                                   *)
+RECURSIVE Glob(_, _)
+Glob(p, s) == IF Len(p) = 0 THEN Len(s) = 0
+              ELSE IF Ch(p, 1) = "*" THEN Glob(Rest(p), s) \/ (Len(s) > 0 /\ Glob(p, Rest(s)))
+              ELSE /\ Len(s) > 0
+                   /\ (Ch(p, 1) = "?" \/ Ch(p, 1) = Ch(s, 1))
+                   /\ Glob(Rest(p), Rest(s))
+HasWild(p) == \E j \in 1..Len(p) : Ch(p, j) \in {"*", "?"}
+
+-----------------------------------------------------------------------------
 (* views -> streams -> aggregators (stream identity cache) *)
-Match(v, i) == /\ ~(v.mname = "" /\ v.mkind = "")          \* empty criteria match nothing
-               /\ v.mname \in {"", "*", i.name}
+(* NewView: "The returned View will only apply mask if all non-zero-value      *)
+(* fields of criteria match the corresponding Instrument passed to the view.   *)
+(* If no criteria are provided ... a view that matches no instruments is       *)
+(* returned."  SDK specification: the criteria are additive (name, type, unit, *)
+(* meter name, meter version, meter schema URL).                               *)
+NoCriteria(v) == /\ v.mname = "" /\ v.mkind = "" /\ v.munit = "" /\ v.mdesc = ""
+                 /\ v.msn = "" /\ v.msv = "" /\ v.msu = ""
+Match(v, i) == /\ ~NoCriteria(v)
+               /\ (v.mname = "" \/ Glob(v.mname, i.name))
                /\ v.mkind \in {"", i.kind}
-StreamOf(v, i) == [name |-> IF v.name = "" THEN i.name ELSE v.name, kind |-> i.kind, num |-> i.num,
+               /\ v.munit \in {"", i.unit}
+               /\ v.mdesc \in {"", i.desc}
+               /\ v.msn \in {"", i.sn}
+               /\ v.msv \in {"", i.sv}
+               /\ v.msu \in {"", i.su}
+(* "The Stream mask only applies updates for non-zero-value fields. By default *)
+(* the Instrument the View matches against will be use for the Name,           *)
+(* Description, and Unit of the returned Stream and no Aggregation or          *)
+(* AttributeFilter are set."                                                   *)
+NonZero(x, alt) == IF x = "" THEN alt ELSE x
+StreamOf(v, i) == [name |-> NonZero(v.name, i.name), lname |-> Lower(NonZero(v.name, i.name)), desc |-> NonZero(v.desc, i.desc), unit |-> NonZero(v.unit, i.unit),
+                   kind |-> i.kind, num |-> i.num, sn |-> i.sn, sv |-> i.sv, su |-> i.su,
                    agg |-> Resolve(v.agg, i.kind), filt |-> v.filt]
-DefaultStream(i) == [name |-> i.name, kind |-> i.kind, num |-> i.num, agg |-> DefaultAgg(i.kind),
-                     filt |-> NoFilter]
+DefaultStream(i) == [name |-> i.name, lname |-> Lower(i.name), desc |-> i.desc, unit |-> i.unit,
+                     kind |-> i.kind, num |-> i.num, sn |-> i.sn, sv |-> i.sv, su |-> i.su,
+                     agg |-> DefaultAgg(i.kind), filt |-> NoFilter]
 (* every matching view yields a stream; no match -> the default stream *)
 InstStreams(cfg, i) ==
   LET m == SelectSeq(cfg.views, LAMBDA v : Match(v, i))
   IN IF Len(m) = 0 THEN <<DefaultStream(i)>> ELSE [j \in 1..Len(m) |-> StreamOf(m[j], i)]
-Id(s) == [name |-> s.name, kind |-> s.kind, num |-> s.num]
+(* identity of a stream inside one Meter: names are case-insensitive; streams  *)
+(* (lname = the name in lower case, computed once per stream); streams         *)
+(* with one identity are one stream (one aggregator, every measurement counted *)
+(* once); streams that differ in any identifying field are distinct streams    *)
+(* that are all exported, also when they share the name (the SDK only warns)   *)
+Id(s) == [name |-> s.lname, desc |-> s.desc, unit |-> s.unit, kind |-> s.kind, num |-> s.num,
+          sn |-> s.sn, sv |-> s.sv, su |-> s.su]
+(* what identifies a reported metric for a reader (a collected metric does not *)
+(* carry the instrument kind)                                                  *)
+RKey(s) == [name |-> s.lname, desc |-> s.desc, unit |-> s.unit, num |-> s.num, agg |-> s.agg,
+            sn |-> s.sn, sv |-> s.sv, su |-> s.su]
 Dedup(seq) == FoldLeft(LAMBDA acc, s : IF \E j \in 1..Len(acc) : Id(acc[j]) = Id(s) THEN acc ELSE Append(acc, s),
                        <<>>, seq)
+AllStreams(cfg) == FlattenSeq([j \in 1..Len(cfg.insts) |-> InstStreams(cfg, cfg.insts[j])])
 (* one aggregator per stream identity, in order of creation *)
-Table(cfg) == Dedup(FlattenSeq([j \in 1..Len(cfg.insts) |-> InstStreams(cfg, cfg.insts[j])]))
+Table(cfg) == Dedup(AllStreams(cfg))
 (* aggregators fed by instrument number i: each identity once (no duplication) *)
 Feeds(cfg, tab, i) == {t \in 1..Len(tab) : \E s \in Rng(InstStreams(cfg, cfg.insts[i])) : Id(s) = Id(tab[t])}
-(* configurations on which statement and SDK specification are silent are kept  *)
-(* out of every driver: two streams with one identity but different aggregation *)
-(* or filter, and aggregations an instrument kind cannot use                    *)
-ConflictFree(cfg) ==
-  LET all == FlattenSeq([j \in 1..Len(cfg.insts) |-> InstStreams(cfg, cfg.insts[j])])
+(* configurations on which statement, documentation and SDK specification are  *)
+(* silent (or allow several behaviours) are kept out of every driver:          *)
+(*  - two streams with one identity but different aggregation or filter        *)
+(*  - aggregations an instrument kind cannot use                               *)
+(*  - two distinct streams a reader could not tell apart (differ in kind only) *)
+(*  - a renaming view that selects by wildcard (the SDK "MAY fail fast")       *)
+(*  - a name criterion that matches an instrument only up to letter case       *)
+(*  - instruments without a name / Meter name, or with wildcard characters     *)
+InDomain(cfg) ==
+  LET all == AllStreams(cfg)
   IN /\ \A x, y \in 1..Len(all) : Id(all[x]) = Id(all[y]) =>
             (all[x].agg = all[y].agg /\ all[x].filt.on = all[y].filt.on /\ KeepSet(all[x].filt) = KeepSet(all[y].filt))
      /\ \A x \in 1..Len(all) : Compatible(all[x].agg, all[x].kind)
-     /\ \A x, y \in 1..Len(cfg.insts) : (x # y /\ cfg.insts[x].name = cfg.insts[y].name) =>
-            (cfg.insts[x].kind = cfg.insts[y].kind /\ cfg.insts[x].num = cfg.insts[y].num)
+     /\ \A x, y \in 1..Len(all) : RKey(all[x]) = RKey(all[y]) => Id(all[x]) = Id(all[y])
+     /\ \A x \in 1..Len(cfg.views) : HasWild(cfg.views[x].mname) => cfg.views[x].name = ""
+     /\ \A x \in 1..Len(cfg.views), y \in 1..Len(cfg.insts) :
+            (cfg.views[x].mname # "" /\ Glob(Lower(cfg.views[x].mname), Lower(cfg.insts[y].name)))
+               => Glob(cfg.views[x].mname, cfg.insts[y].name)
+     /\ \A y \in 1..Len(cfg.insts) : cfg.insts[y].name # "" /\ cfg.insts[y].sn # "" /\ ~HasWild(cfg.insts[y].name)
 
 -----------------------------------------------------------------------------
 (* one aggregator: a set of cells, at most one per reported attribute set *)
@@ -121,10 +190,14 @@ Pt(st, temp, ag, c) ==
        [] m \in {"last", "plast"} -> [z EXCEPT !.l = c.l]
        [] m = "hist" -> [z EXCEPT !.n = c.n, !.s = IF HasSum(st.kind) THEN c.s ELSE 0, !.mn = c.mn, !.mx = c.mx]
 MetricOf(st, temp, ag) ==
-  [name |-> st.name, num |-> st.num, agg |-> st.agg,
+  [name |-> st.lname, desc |-> st.desc, unit |-> st.unit, sn |-> st.sn, sv |-> st.sv, su |-> st.su,
+   num |-> st.num, agg |-> st.agg,
    temp |-> IF st.agg = "last" THEN "" ELSE temp,
    mono |-> (st.agg = "sum" /\ Mono(st.kind)),
    pts |-> {Pt(st, temp, ag, c) : c \in ag.cells}]
+(* the reported metric(s) of stream st among a set / the key of a reported metric *)
+MKey(m) == [name |-> m.name, desc |-> m.desc, unit |-> m.unit, num |-> m.num, agg |-> m.agg,
+            sn |-> m.sn, sv |-> m.sv, su |-> m.su]
 (* what a collection returns: every stream that holds data; drop reports nothing *)
 Report(cfg, tab, ss) ==
   {MetricOf(tab[t], cfg.temp, ss[t]) : t \in {u \in 1..Len(tab) : Mode(tab[u].agg, tab[u].kind) # "drop" /\ ss[u].cells # {}}}
